@@ -262,6 +262,9 @@ type Operator struct {
 	// before the genuine operation file / result is handed over.
 	PreAir    func(op *types.Operation, opJSON []byte)
 	PreSubmit func(op *types.Operation, body []byte)
+	// Submit / Approve, when set, replace the plain API calls (observed submission).
+	Submit  func(op *types.Operation, body []byte) *APIResult
+	Approve func(op *types.Operation, body []byte) *APIResult
 	// Refeed makes the operator process the operation on the airgapped
 	// machine again even if a result file exists (C12, C15)
 	Refeed bool
@@ -303,7 +306,12 @@ func (o *Operator) Handle(w *World, op *types.Operation) *APIResult {
 	w.Log.Add("operator[%d] takes %s round=%.8s batch=%.8s", o.Idx, op.Type, op.DKGIdentifier, BatchOfOp(op))
 	if string(op.Type) == string(spf.StateAwaitParticipantsConfirmations) {
 		body, _ := json.Marshal(map[string]string{"operationID": op.ID})
-		rep := w.CallAPI(n, "approve", "POST", "/approveDKGParticipation", body)
+		var rep *APIResult
+		if o.Approve != nil {
+			rep = o.Approve(op, body)
+		} else {
+			rep = w.CallAPI(n, "approve", "POST", "/approveDKGParticipation", body)
+		}
 		if o.OnResult != nil {
 			o.OnResult(op, nil, rep)
 		}
@@ -370,7 +378,12 @@ func (o *Operator) Handle(w *World, op *types.Operation) *APIResult {
 			return &APIResult{ErrMsg: "aborted"}
 		}
 	}
-	rep := w.CallAPI(n, "submit", "POST", "/handleProcessedOperationJSON", body)
+	var rep *APIResult
+	if o.Submit != nil {
+		rep = o.Submit(op, body)
+	} else {
+		rep = w.CallAPI(n, "submit", "POST", "/handleProcessedOperationJSON", body)
+	}
 	if !rep.OK() {
 		w.Log.Add("operator[%d] submit rejected: %.120s", o.Idx, rep.ErrMsg)
 	}
